@@ -34,7 +34,39 @@ def sh(cmd, cwd=wt, e=env, **kw):
     return subprocess.run(cmd, cwd=cwd, env=e, stdout=subprocess.PIPE, stderr=subprocess.STDOUT, text=True, **kw)
 
 
+recheck = '--recheck' in sys.argv
+prev = os.path.join(VERIF, 'seeded', pid, name, 'meta.json')
 try:
+    if recheck and os.path.exists(prev) and 'confirmed' in json.load(open(prev)):
+        # already confirmed (demo + baseline): only re-run the property's check against the patched copy
+        meta = json.load(open(prev))
+        a = sh(['git', 'apply', os.path.join(VERIF, 'seeded', pid, name, 'patch.diff')])
+        if a.returncode != 0:
+            print(pid, name, 'PATCH DOES NOT APPLY', a.stdout[-300:])
+            sys.exit(1)
+        e2 = dict(os.environ, ZEPID_REPO=wt)
+        c = sh(['/venv/bin/python', 'harness/check.py', pid, '--tier', tier], cwd=VERIF, e=e2, timeout=7200)
+        viol = [ln for ln in c.stdout.splitlines() if ln.startswith('VIOLATION')]
+        summ = [ln for ln in c.stdout.splitlines() if ln.startswith(pid + ' tier=')]
+        gate = None
+        meta['detected'] = {}
+        if viol:
+            gate = 'P/K (no-failing-input-found)' if 'no-failing-input-found' in viol[0] else 'D (failing input replayed)'
+            m = re.search(r'replay=(\S+)', viol[0])
+            if m and os.path.exists(os.path.join(VERIF, m.group(1))):
+                try:
+                    rec = json.load(open(os.path.join(VERIF, m.group(1))))
+                    meta['detected']['first_failure'] = (rec.get('failures') or [{}])[0].get('what') or \
+                        (rec.get('no_longer_checks') or [''])[0]
+                except Exception:
+                    pass
+        meta['detected'].update({'check': 'harness/check.py %s --tier %s (ZEPID_REPO=scratch copy with the patch)' % (pid, tier),
+                                 'exit': c.returncode, 'violation': bool(viol), 'gate': gate,
+                                 'summary': summ[-1] if summ else c.stdout[-300:]})
+        print(pid, name, 'recheck exit=%d %s' % (c.returncode, 'CAUGHT via ' + gate if viol else 'MISSED'))
+        sh(['/venv/bin/python', 'harness/py2lean.py'], cwd=VERIF, e=dict(os.environ))
+        json.dump(meta, open(prev, 'w'), indent=1)
+        sys.exit(0)
     shutil.copy(src + '/demo.py', wt + '/_demo.py')
     r0 = sh(['/venv/bin/python', '_demo.py'], timeout=1800)
     a = sh(['git', 'apply', src + '/patch.diff'])
